@@ -401,14 +401,14 @@ fn check_terminal(e: &Error, terminal: &Terminal, res: &mut CaseResult) {
 pub fn run(rc: &mut RunCtx) {
     let seed = rc.seed;
     // (1) exhaustive single and double cuts of short streams
-    let nshort = rc.n(6, 32);
+    let nshort = if rc.miri() { 1 } else { rc.n(6, 32) };
     for s in 0..nshort {
         let mut r = Rng::for_case(seed, 6, s);
         // short frames only, so the pair space stays small
         let (frames, encs) = loop {
             let (f, e) = gen_stream(&mut r, 3);
             let len: usize = e.iter().map(|x| x.len()).sum();
-            if len <= if rc.quick() { 90 } else { 160 } {
+            if len <= if rc.miri() { 36 } else if rc.quick() { 90 } else { 160 } {
                 break (f, e);
             }
         };
@@ -453,7 +453,7 @@ pub fn run(rc: &mut RunCtx) {
     }
     rc.note("exhaustive_over", json!("every pair of cut positions (with and without a would-block after each read) and every EOF offset of the short streams"));
     // (2) random streams, random cuts
-    let n = rc.n(6000, 300000);
+    let n = if rc.miri() { 40 } else { rc.n(6000, 300000) };
     for i in 0..n {
         let id = format!("rand:{}", i);
         if !rc.mine(&id) {
